@@ -11,6 +11,11 @@ R3  each interleaving is executed by REAL goroutines against one Store, every go
     verdict; afterwards the C01/C02/C06 oracles run.  CoreObs.tla judges C12_* (+ C01, C02, snapshot = position).
     The data-race clause is decided by the Go race detector on the same replays and on free-running stress (not by
     TLA+; see DESIGN.md section 10).
+R3' daemon mode: the real Store with ALL its monitors running on short intervals (DB.monitor, Replica.monitor, compaction
+    monitors, snapshot monitor + retention cascade, level-0 retention, validation) next to a live application writer and
+    acknowledged Store.SyncDB(wait) requests; nothing is gated.  DaemonObs.tla judges what is sound to observe next to
+    running monitors: acknowledged => restore equals source, Close returns and leaks nothing, and - after Close - every
+    TXID left on the replica restores to a committed state in order, levels contiguous, a snapshot kept.
 """
 import json, os, random, re, shutil, subprocess, sys, time
 sys.path.insert(0, os.path.dirname(os.path.abspath(__file__)))
@@ -105,6 +110,9 @@ def main():
                 if label == "poscache":
                     pre = PREFIX + [["LsSyncAndWait"], ["Compact", 1], ["AppWrite", 1], ["LsSyncAndWait"], ["L0Retention", 9], ["AppWrite", 3]]
                 cases.append({"id": i, "cfg": cfg, "sched": pre + [["Par", b]] + SUFFIX, "label": label})
+        daemon_replay = []
+        if replay_path and cases[0]["cfg"].get("daemon", {}).get("monMs", 0) > 0:
+            daemon_replay, cases = cases, []     # a daemon-mode replay is judged by DaemonObs only
         by_id = {c["id"]: c for c in cases}
         t0 = time.time()
         out, info = corelib.run_cases(binary, wd, "cases", [{k: c[k] for k in ("id", "cfg", "sched")} for c in cases], j=8)
@@ -133,12 +141,28 @@ def main():
                         "observed": [[e["op"], e["arg"], e["res"][:40], e["open"], e["hasRead"]] for e in evs if e["op"].startswith("Par")][:30]})
         corelib.classify(rep, PROP, by_id, events, verdicts, hazards, set(INV), PROP)
 
+        # ---- daemon mode: the Store's own goroutines, free-running
+        dcases = []
+        if daemon_replay:
+            dcases = daemon_replay
+        elif not replay_path:
+            dcases = corelib.daemon_cases(seed, 24 if not thorough else 240, first_id=len(cases))
+        if dcases:
+            _t2 = time.time()
+            corelib.daemon_run(rep, binary, wd, dcases, PROP)
+            rep.cov["phase_s"]["daemon_mode"] = round(time.time() - _t2, 1)
+            rep.cov["traces_validated_against_impl"] += len(dcases)
+            for c in dcases:
+                c["label"] = "daemon"
+            cases = cases + [c for c in dcases if c not in cases]
+
         # ---- data-race clause: the race detector on a subset of the same replays + free-running blocks.
         # Each case runs in its own process so that a report is attributed to its schedule; a race is identified by the
         # pair of litestream functions on top of the two conflicting stacks (that pair is the known-finding signature).
         if not replay_path or os.environ.get("VERIF_RACE_REPLAY"):
             rbin, _ = vlib.go_build("./cmd/core", "core-race", race=True, timeout=2400)
             sub = [c for c in cases if c["label"] in ("free", "register", "witness:Z1", "replay")] + \
+                  [c for c in cases if c["label"] == "daemon"][: (6 if not thorough else 40)] + \
                   [c for c in cases if c["label"] in ("sim", "random")][: (24 if not thorough else 300)]
             env = dict(os.environ, GORACE="halt_on_error=0 exitcode=0")
             from concurrent.futures import ThreadPoolExecutor
